@@ -200,6 +200,7 @@ func checkC07(c *Ctx) {
 	c07R3(c)
 	c07R4(c)
 	removeAuthgrantsRule(c, "C07.R5")
+	c07R6(c)
 }
 
 func c07R1(c *Ctx) {
@@ -776,5 +777,125 @@ func c07R4(c *Ctx) {
 	if ok {
 		fs.report(c, "C07.R4", name, []string{"not-expired", "same-user", "cert-format", "known-type"}, P.Pos(fn.Pos()), fmt.Sprintf("holds on all %d accepting paths", succ))
 		c.Floor("C07.R4", "accepting paths of checkIntent", succ, 1)
+	}
+}
+
+// c07R6: filtering in place does not multiply grants. The idiom live := s[:0]; for … { live = append(live,
+// x) } compacts into the backing array of s. After it only `live` describes the result: the original
+// header s still has its old length, and its tail now holds copies of elements that were moved forward,
+// so using s afterwards (returning it, storing it, passing it on) turns one stored grant into several —
+// and checkCmd consumes one copy per action. Rule: in hopserver and authgrants, a slice of grants that is
+// the base of such an in-place filter is not returned, stored or passed to a call in that function.
+func c07R6(c *Ctx) {
+	P := c.P
+	const rule = "C07.R6"
+	c.Rule(rule, "filtering in place does not multiply grants: in hopserver / authgrants, a []Authgrant that is compacted in place (append into s[:0]) is not returned, stored or handed on under its original header afterwards (its tail then holds duplicates of the elements that moved forward; one stored grant would authorise several actions) (def-use)")
+	isGrantSlice := func(t types.Type) bool {
+		sl, ok := t.Underlying().(*types.Slice)
+		if !ok {
+			return false
+		}
+		n, ok := sl.Elem().(*types.Named)
+		return ok && n.Obj().Name() == "Authgrant"
+	}
+	n := 0
+	for _, f := range P.ModuleFuncs("hopserver", "authgrants") {
+		if f.Blocks == nil {
+			continue
+		}
+		eachInstr(f, func(ins ssa.Instruction) {
+			sl, ok := ins.(*ssa.Slice)
+			if !ok || !isGrantSlice(sl.Type()) || sl.High == nil {
+				return
+			}
+			if k, isC := constInt(sl.High); !isC || k != 0 {
+				return
+			}
+			if sl.Low != nil {
+				if k, isC := constInt(sl.Low); !isC || k != 0 {
+					return
+				}
+			}
+			// does s[:0] (possibly through a phi) reach the first operand of an append?
+			feeds := false
+			var appends []*ssa.Call
+			seen := map[ssa.Value]bool{}
+			var follow func(v ssa.Value, depth int)
+			follow = func(v ssa.Value, depth int) {
+				if depth > 4 || seen[v] || v.Referrers() == nil {
+					return
+				}
+				seen[v] = true
+				for _, r := range *v.Referrers() {
+					switch x := r.(type) {
+					case *ssa.Phi:
+						follow(x, depth+1)
+					case *ssa.Call:
+						if b, ok := x.Call.Value.(*ssa.Builtin); ok && b.Name() == "append" && len(x.Call.Args) > 0 && x.Call.Args[0] == v {
+							feeds = true
+							appends = append(appends, x)
+						}
+					}
+				}
+			}
+			follow(sl, 0)
+			if !feeds {
+				return
+			}
+			n++
+			base := sl.X
+			cons := fmt.Sprintf("%s#in-place-filter%d", FuncName(f), n)
+			var bad ssa.Instruction
+			// only uses that can execute after an element was moved count
+			after := func(use ssa.Instruction) bool {
+				for _, a := range appends {
+					if a.Block() == use.Block() {
+						if instrIndex(a) < instrIndex(use) {
+							return true
+						}
+						// same block, use first: later only around a loop
+						for _, sc := range a.Block().Succs {
+							if blockReaches(sc, use.Block()) {
+								return true
+							}
+						}
+						continue
+					}
+					if blockReaches(a.Block(), use.Block()) {
+						return true
+					}
+				}
+				return false
+			}
+			if base.Referrers() != nil {
+				for _, r := range *base.Referrers() {
+					if !after(r) {
+						continue
+					}
+					switch x := r.(type) {
+					case *ssa.Return:
+						bad = x
+					case *ssa.Store:
+						if x.Val == base {
+							bad = x
+						}
+					case *ssa.Call:
+						if _, isB := x.Call.Value.(*ssa.Builtin); !isB {
+							bad = x
+						}
+					case *ssa.MakeInterface, *ssa.Send:
+						bad = r
+					}
+				}
+			}
+			if bad != nil {
+				c.Fail(rule, cons, P.InstrPos(bad), "a grant list is compacted in place (append into its zero-length re-slice) and then used under its original header: the tail holds duplicates of the grants that moved forward, so one stored grant can authorise more than one action")
+			} else {
+				c.OK(rule, cons, P.InstrPos(sl), "the original header is not used after the in-place filter")
+			}
+		})
+	}
+	if n == 0 {
+		c.OK(rule, "in-place-filter:none", "-", "no in-place filter of a grant list in hopserver / authgrants")
 	}
 }
